@@ -545,8 +545,9 @@ func guardRule(rc *RuleCtx, pkgs map[string]bool) {
 	}
 	goods := map[string]*agg{}
 	bads := map[string]*agg{}
+	owners := entryOwners(guardInfoFor(rc.C).a)
 	for _, b := range bad {
-		cons := fmt.Sprintf("%s %s", funcName(b.fn), b.field)
+		cons := fmt.Sprintf("%s %s", owners(b.fn), b.field)
 		if bads[cons] == nil {
 			bads[cons] = &agg{pos: b.pos, hows: map[string]bool{}}
 		}
@@ -554,7 +555,7 @@ func guardRule(rc *RuleCtx, pkgs map[string]bool) {
 		bads[cons].n++
 	}
 	for _, gk := range good {
-		cons := fmt.Sprintf("%s %s", funcName(gk.fn), gk.field)
+		cons := fmt.Sprintf("%s %s", owners(gk.fn), gk.field)
 		if goods[cons] == nil {
 			goods[cons] = &agg{pos: gk.pos, hows: map[string]bool{}}
 		}
@@ -607,4 +608,60 @@ func (a *lockAnalysis) guardHeld(fn *ssa.Function, st *lstate, obj okey, mutex s
 		return false, " (held only in mode " + h.mode.String() + ")"
 	}
 	return false, ""
+}
+
+// entryOwners names a function by the exported entry points through which it runs: an entry point is named by
+// itself, an unexported helper by the sorted set of entry points that reach it through unexported functions only.
+// Findings keyed this way do not move when a block is extracted into, or inlined from, an unexported helper.
+func entryOwners(a *lockAnalysis) func(f *ssa.Function) string {
+	callers := map[*ssa.Function]map[*ssa.Function]bool{}
+	for _, g := range a.funcs {
+		for _, h := range withAnon(g) {
+			eachCall(h, func(ci ssa.CallInstruction) {
+				for _, callee := range a.calleesOf(ci) {
+					if callers[callee] == nil {
+						callers[callee] = map[*ssa.Function]bool{}
+					}
+					callers[callee][g] = true
+				}
+			})
+		}
+	}
+	cache := map[*ssa.Function]string{}
+	return func(f *ssa.Function) string {
+		for f.Parent() != nil {
+			f = f.Parent()
+		}
+		if s, ok := cache[f]; ok {
+			return s
+		}
+		set := map[string]bool{}
+		seen := map[*ssa.Function]bool{}
+		var up func(g *ssa.Function)
+		up = func(g *ssa.Function) {
+			if seen[g] {
+				return
+			}
+			seen[g] = true
+			if isEntryPoint(g) {
+				set[funcName(g)] = true
+				return
+			}
+			for c := range callers[g] {
+				up(c)
+			}
+		}
+		up(f)
+		var names []string
+		for n := range set {
+			names = append(names, n)
+		}
+		sort.Strings(names)
+		s := funcName(f)
+		if len(names) > 0 {
+			s = strings.Join(names, "|")
+		}
+		cache[f] = s
+		return s
+	}
 }
